@@ -486,14 +486,22 @@ func c06ConcurrentAddMount(t *T) {
 // c06ExistingDstProbe: cross-mount rename onto an existing file whose copy fails part way.
 func c06ExistingDstProbe(t *T) {
 	defer beginTrial(t, false)()
-	w := buildMountWorld(t, []string{"a", "b"}, true)
-	must(t, hackpadfs.WriteFullFile(w.cores["a"].inner, "src", uniqueData(1, 100000), 0644))
-	must(t, hackpadfs.WriteFullFile(w.cores["b"].inner, "dst", []byte("old destination"), 0600))
-	w.cores["b"].faultKind, w.cores["b"].faultAt = "file.Write", 1
-	pre := w.snapshotParts(w.parts, true)
-	err := w.mfs.Rename("a/src", "b/dst")
-	if err != nil && w.snapshotParts(w.parts, true) != pre {
-		t.Fail("rename", "C06:cross-rename:fault=file.Write:dst-existed:failed-but-changed", "a failed cross-mount rename onto an existing file destroyed the old destination")
+	// the finding does not hinge on where exactly the copy fails: several fault points are tried, so that a change in
+	// how the copy is cut into calls (one Write instead of four, say) does not make the probe pass for want of a
+	// second Write and the finding look repaired
+	for _, at := range []struct {
+		side, kind string
+		n          int
+	}{{"b", "file.Write", 0}, {"b", "file.Write", 1}, {"b", "file.CloseWritten", 0}, {"a", "file.Read", 1}} {
+		w := buildMountWorld(t, []string{"a", "b"}, true)
+		must(t, hackpadfs.WriteFullFile(w.cores["a"].inner, "src", uniqueData(1, 100000), 0644))
+		must(t, hackpadfs.WriteFullFile(w.cores["b"].inner, "dst", []byte("old destination"), 0600))
+		w.cores[at.side].faultKind, w.cores[at.side].faultAt = at.kind, at.n
+		pre := w.snapshotParts(w.parts, true)
+		err := w.mfs.Rename("a/src", "b/dst")
+		if err != nil && w.snapshotParts(w.parts, true) != pre {
+			t.Fail("rename", "C06:cross-rename:fault=file.Write:dst-existed:failed-but-changed", "a failed cross-mount rename onto an existing file destroyed the old destination")
+		}
 	}
 }
 
